@@ -354,7 +354,9 @@ var allBindings = []string{saml.HTTPPostBinding, saml.HTTPRedirectBinding, saml.
 
 var locations = []string{"https://sp.example.com/acs", "http://sp.example.com/acs", "HTTPS://SP.EXAMPLE.COM/acs", "hTtP://x/", "javascript:alert(1)", "JAVASCRIPT:alert(1)", "data:text/html;base64,PHNjcmlwdD4=", "vbscript:x",
 	" https://leading.blank/", "\thttps://leading.tab/", "ja\tvascript:alert(1)", "java\nscript:alert(1)", "https://trailing.blank/ ", "/relative", "//scheme-relative/x", "", "https", "https:", "https:/one-slash", "ftp://x/",
-	"file:///etc/passwd", ":missing", "1http://x", "ht+tp://x", "https://x/#javascript:alert(1)", "javascript://%0aalert(1)", "https://user:pw@host/", "https://[::1]/", "https://x/%zz", "http://a b/", "https://x/\x7f", "urn:x", "mailto:a@b"}
+	"file:///etc/passwd", ":missing", "1http://x", "ht+tp://x", "https://x/#javascript:alert(1)", "javascript://%0aalert(1)", "https://user:pw@host/", "https://[::1]/", "https://x/%zz", "http://a b/", "https://x/\x7f", "urn:x", "mailto:a@b",
+	// non-http(s) schemes written with an authority (hierarchical, so url.Parse gives them a host): still not http(s)
+	"javascript://idp.example.com/%0Aalert(document.domain)", "JavaScript://host/x", "vbscript://host/x", "data://host/x", "com.example.app://saml/acs", "ftp://host/acs", "ws://host/acs", "httpx://host/acs", "https+x://host/acs"}
 
 // one EntityDescriptor with the location in every endpoint-bearing element of both descriptor kinds
 func mdWith(binding, loc string, respLoc *string) []byte {
